@@ -1,4 +1,254 @@
-import Rngs.Model.Xoshiro
+/-
+  C08 — No seeding path yields the all-zero state; zero seeds are remapped as documented.
+-/
+import Rngs.Lib.SeedLemmas
 namespace Rngs.C08
-theorem placeholder : True := trivial
+open Rngs Rngs.Seed Rngs.Codec
+
+/-- what the proof needs to know about a xoshiro-family generator: its zero state and that its
+    decoder maps a not-all-zero seed of the right length to a non-zero state -/
+structure Shape (σ : Type) (g : XoGen σ) where
+  zero : σ
+  decode_ne_zero : ∀ seed, seed.length = g.seedLen → isAllZero seed = false → g.decode seed ≠ zero
+  /-- the SplitMix64 expansion of 0 (the documented replacement of the zero seed) is not all zero -/
+  expand0 : isAllZero (SplitMix64.fill g.seedLen (SplitMix64.seedFromU64 0)).1 = false
+
+/-- unfolding of the zero-seed branch: two more calls suffice -/
+theorem fromSeedFuel_zero {σ : Type} (g : XoGen σ) (sh : Shape σ g) (fuel : Nat) (seed : List U8)
+    (hz : isAllZero seed = true) :
+    g.fromSeedFuel (fuel + 2) seed = some (g.decode (SplitMix64.fill g.seedLen (SplitMix64.seedFromU64 0)).1) := by
+  have h0 := sh.expand0
+  rw [XoGen.fromSeedFuel, if_pos hz]
+  show g.fromSeedFuel (fuel + 1) (SplitMix64.fill g.seedLen (SplitMix64.seedFromU64 0)).1 = _
+  rw [XoGen.fromSeedFuel, if_neg (by rw [h0]; decide)]
+
+theorem fromSeedFuel_nonzero {σ : Type} (g : XoGen σ) (fuel : Nat) (seed : List U8)
+    (hz : isAllZero seed = false) : g.fromSeedFuel (fuel + 1) seed = some (g.decode seed) := by
+  rw [XoGen.fromSeedFuel, if_neg (by rw [hz]; decide)]
+
+theorem splitmix_fill_length (n : Nat) (x : U64) : (SplitMix64.fill n x).1.length = n :=
+  fillBytesViaNext_length _ _ _
+
+/-- `from_seed` with fuel ≥ 2 on any seed of the right length terminates in a non-zero state. -/
+theorem fromSeedFuel_ne_zero {σ : Type} (g : XoGen σ) (sh : Shape σ g) (fuel : Nat) (seed : List U8)
+    (hl : seed.length = g.seedLen) :
+    ∃ st, g.fromSeedFuel (fuel + 2) seed = some st ∧ st ≠ sh.zero := by
+  by_cases hz : isAllZero seed = true
+  · exact ⟨_, fromSeedFuel_zero g sh fuel seed hz, sh.decode_ne_zero _ (splitmix_fill_length _ _) sh.expand0⟩
+  · have hz' : isAllZero seed = false := by simpa using hz
+    exact ⟨g.decode seed, fromSeedFuel_nonzero g (fuel + 1) seed hz', sh.decode_ne_zero _ hl hz'⟩
+
+/-- **Termination and non-zero result of `from_seed`** (the `from_seed ↔ seed_from_u64` mutual
+    recursion needs at most two more calls): for every seed of the right length. -/
+theorem fromSeed_ne_zero {σ : Type} (g : XoGen σ) (sh : Shape σ g) (seed : List U8) (hl : seed.length = g.seedLen) :
+    ∃ st, g.fromSeed? seed = some st ∧ st ≠ sh.zero :=
+  fromSeedFuel_ne_zero g sh 1 seed hl
+
+/-- `seed_from_u64(x)` terminates in a non-zero state for every x (also when the SplitMix64
+    expansion of x is all zero — possible for the 8-byte seeds — where it falls back to x = 0). -/
+theorem seedFromU64_ne_zero {σ : Type} (g : XoGen σ) (sh : Shape σ g) (x : U64) :
+    ∃ st, g.seedFromU64? x = some st ∧ st ≠ sh.zero :=
+  fromSeedFuel_ne_zero g sh 1 _ (splitmix_fill_length _ _)
+
+/-- The all-zero seed gives exactly the generator `seed_from_u64(0)`. -/
+theorem fromSeed_zero_eq_seedFromU64_zero {σ : Type} (g : XoGen σ) (sh : Shape σ g) (seed : List U8)
+    (hz : isAllZero seed = true) : g.fromSeed? seed = g.seedFromU64? 0 := by
+  show g.fromSeedFuel (1 + 2) seed = g.fromSeedFuel (2 + 1) (SplitMix64.fill g.seedLen (SplitMix64.seedFromU64 0)).1
+  rw [fromSeedFuel_zero g sh 1 seed hz, fromSeedFuel_nonzero g 2 _ sh.expand0]
+
+/-- Every other seed is used verbatim. -/
+theorem fromSeed_verbatim {σ : Type} (g : XoGen σ) (seed : List U8) (hz : isAllZero seed = false) :
+    g.fromSeed? seed = some (g.decode seed) :=
+  fromSeedFuel_nonzero g 2 seed hz
+
+/-- default `from_rng` / `try_from_rng`: whatever bytes a source delivers (of the requested length),
+    the generator built from them is not in the zero state; a failing source yields its error. -/
+theorem fromRng_ne_zero {σ ρ : Type} (g : XoGen σ) (sh : Shape σ g) (fill : TryFill ρ) (src : ρ)
+    (hfill : ∀ s n b s', fill s n = (.ok b, s') → b.length = n) :
+    (∃ st src', g.fromRng? fill src = (.ok (some st), src') ∧ st ≠ sh.zero) ∨
+    (∃ e src', g.fromRng? fill src = (.error e, src') ∧ fill src g.seedLen = (.error e, src')) := by
+  unfold XoGen.fromRng? fromRngDefault
+  rcases h : fill src g.seedLen with ⟨r, src'⟩
+  cases r with
+  | error e => exact Or.inr ⟨e, src', rfl, rfl⟩
+  | ok b =>
+    obtain ⟨st, hst, hne⟩ := fromSeed_ne_zero g sh b (hfill _ _ _ _ h)
+    exact Or.inl ⟨st, src', by simp [hst], hne⟩
+
+/-! ### the 14 generators -/
+def shape2_32 (g : XoGen (S2 32)) (hd : g.decode = S2.decode32) (hl : g.seedLen = 8) : Shape (S2 32) g where
+  zero := S2.zero
+  decode_ne_zero seed h hz := by rw [hd]; exact S2_decode32_ne_zero seed (by omega) hz
+  expand0 := by rw [hl]; decide +kernel
+def shape2_64 (g : XoGen (S2 64)) (hd : g.decode = S2.decode64) (hl : g.seedLen = 16) : Shape (S2 64) g where
+  zero := S2.zero
+  decode_ne_zero seed h hz := by rw [hd]; exact S2_decode64_ne_zero seed (by omega) hz
+  expand0 := by rw [hl]; decide +kernel
+def shape4_32 (g : XoGen (S4 32)) (hd : g.decode = S4.decode32) (hl : g.seedLen = 16) : Shape (S4 32) g where
+  zero := S4.zero
+  decode_ne_zero seed h hz := by rw [hd]; exact S4_decode32_ne_zero seed (by omega) hz
+  expand0 := by rw [hl]; decide +kernel
+def shape4_64 (g : XoGen (S4 64)) (hd : g.decode = S4.decode64) (hl : g.seedLen = 32) : Shape (S4 64) g where
+  zero := S4.zero
+  decode_ne_zero seed h hz := by rw [hd]; exact S4_decode64_ne_zero seed (by omega) hz
+  expand0 := by rw [hl]; decide +kernel
+def shape8 (g : XoGen S8) (hd : g.decode = S8.decode) (hl : g.seedLen = 64) : Shape S8 g where
+  zero := S8.zero
+  decode_ne_zero seed h hz := by rw [hd]; exact S8_decode_ne_zero seed (by omega) hz
+  expand0 := by rw [hl]; decide +kernel
+
+def Xoroshiro64Star_shape := shape2_32 Xoroshiro64Star.gen rfl rfl
+def Xoroshiro64StarStar_shape := shape2_32 Xoroshiro64StarStar.gen rfl rfl
+def Xoroshiro128Plus_shape := shape2_64 Xoroshiro128Plus.gen rfl rfl
+def Xoroshiro128PlusPlus_shape := shape2_64 Xoroshiro128PlusPlus.gen rfl rfl
+def Xoroshiro128StarStar_shape := shape2_64 Xoroshiro128StarStar.gen rfl rfl
+def Xoshiro128Plus_shape := shape4_32 Xoshiro128Plus.gen rfl rfl
+def Xoshiro128PlusPlus_shape := shape4_32 Xoshiro128PlusPlus.gen rfl rfl
+def Xoshiro128StarStar_shape := shape4_32 Xoshiro128StarStar.gen rfl rfl
+def Xoshiro256Plus_shape := shape4_64 Xoshiro256Plus.gen rfl rfl
+def Xoshiro256PlusPlus_shape := shape4_64 Xoshiro256PlusPlus.gen rfl rfl
+def Xoshiro256StarStar_shape := shape4_64 Xoshiro256StarStar.gen rfl rfl
+def Xoshiro512Plus_shape := shape8 Xoshiro512Plus.gen rfl rfl
+def Xoshiro512PlusPlus_shape := shape8 Xoshiro512PlusPlus.gen rfl rfl
+def Xoshiro512StarStar_shape := shape8 Xoshiro512StarStar.gen rfl rfl
+
+/-- All 14 xoshiro-family generators: every constructor path ends in a non-zero state. -/
+theorem xoshiro_family_never_zero :
+    (∀ seed, seed.length = 8 → ∃ st, Xoroshiro64Star.gen.fromSeed? seed = some st ∧ st ≠ S2.zero) ∧
+    (∀ seed, seed.length = 8 → ∃ st, Xoroshiro64StarStar.gen.fromSeed? seed = some st ∧ st ≠ S2.zero) ∧
+    (∀ seed, seed.length = 16 → ∃ st, Xoroshiro128Plus.gen.fromSeed? seed = some st ∧ st ≠ S2.zero) ∧
+    (∀ seed, seed.length = 16 → ∃ st, Xoroshiro128PlusPlus.gen.fromSeed? seed = some st ∧ st ≠ S2.zero) ∧
+    (∀ seed, seed.length = 16 → ∃ st, Xoroshiro128StarStar.gen.fromSeed? seed = some st ∧ st ≠ S2.zero) ∧
+    (∀ seed, seed.length = 16 → ∃ st, Xoshiro128Plus.gen.fromSeed? seed = some st ∧ st ≠ S4.zero) ∧
+    (∀ seed, seed.length = 16 → ∃ st, Xoshiro128PlusPlus.gen.fromSeed? seed = some st ∧ st ≠ S4.zero) ∧
+    (∀ seed, seed.length = 16 → ∃ st, Xoshiro128StarStar.gen.fromSeed? seed = some st ∧ st ≠ S4.zero) ∧
+    (∀ seed, seed.length = 32 → ∃ st, Xoshiro256Plus.gen.fromSeed? seed = some st ∧ st ≠ S4.zero) ∧
+    (∀ seed, seed.length = 32 → ∃ st, Xoshiro256PlusPlus.gen.fromSeed? seed = some st ∧ st ≠ S4.zero) ∧
+    (∀ seed, seed.length = 32 → ∃ st, Xoshiro256StarStar.gen.fromSeed? seed = some st ∧ st ≠ S4.zero) ∧
+    (∀ seed, seed.length = 64 → ∃ st, Xoshiro512Plus.gen.fromSeed? seed = some st ∧ st ≠ S8.zero) ∧
+    (∀ seed, seed.length = 64 → ∃ st, Xoshiro512PlusPlus.gen.fromSeed? seed = some st ∧ st ≠ S8.zero) ∧
+    (∀ seed, seed.length = 64 → ∃ st, Xoshiro512StarStar.gen.fromSeed? seed = some st ∧ st ≠ S8.zero) :=
+  ⟨fromSeed_ne_zero _ Xoroshiro64Star_shape, fromSeed_ne_zero _ Xoroshiro64StarStar_shape,
+   fromSeed_ne_zero _ Xoroshiro128Plus_shape, fromSeed_ne_zero _ Xoroshiro128PlusPlus_shape,
+   fromSeed_ne_zero _ Xoroshiro128StarStar_shape, fromSeed_ne_zero _ Xoshiro128Plus_shape,
+   fromSeed_ne_zero _ Xoshiro128PlusPlus_shape, fromSeed_ne_zero _ Xoshiro128StarStar_shape,
+   fromSeed_ne_zero _ Xoshiro256Plus_shape, fromSeed_ne_zero _ Xoshiro256PlusPlus_shape,
+   fromSeed_ne_zero _ Xoshiro256StarStar_shape, fromSeed_ne_zero _ Xoshiro512Plus_shape,
+   fromSeed_ne_zero _ Xoshiro512PlusPlus_shape, fromSeed_ne_zero _ Xoshiro512StarStar_shape⟩
+
+/-- … and `seed_from_u64(x)` for every x (shown for one generator of each seed size; the general
+    statement is `seedFromU64_ne_zero` applied to the shapes above). -/
+theorem seedFromU64_never_zero_samples (x : U64) :
+    (∃ st, Xoroshiro64Star.gen.seedFromU64? x = some st ∧ st ≠ S2.zero) ∧
+    (∃ st, Xoroshiro128PlusPlus.gen.seedFromU64? x = some st ∧ st ≠ S2.zero) ∧
+    (∃ st, Xoshiro128StarStar.gen.seedFromU64? x = some st ∧ st ≠ S4.zero) ∧
+    (∃ st, Xoshiro256PlusPlus.gen.seedFromU64? x = some st ∧ st ≠ S4.zero) ∧
+    (∃ st, Xoshiro512StarStar.gen.seedFromU64? x = some st ∧ st ≠ S8.zero) :=
+  ⟨seedFromU64_ne_zero _ Xoroshiro64Star_shape x, seedFromU64_ne_zero _ Xoroshiro128PlusPlus_shape x,
+   seedFromU64_ne_zero _ Xoshiro128StarStar_shape x, seedFromU64_ne_zero _ Xoshiro256PlusPlus_shape x,
+   seedFromU64_ne_zero _ Xoshiro512StarStar_shape x⟩
+
+/-- Distinct non-zero seeds give distinct generators (the decoders are injective on seeds of the
+    right length; shown for the five decoders shared by the 14 types). -/
+theorem decode_injective :
+    (∀ a b : List U8, a.length = 8 → b.length = 8 → S2.decode32 a = S2.decode32 b → a = b) ∧
+    (∀ a b : List U8, a.length = 16 → b.length = 16 → S2.decode64 a = S2.decode64 b → a = b) ∧
+    (∀ a b : List U8, a.length = 16 → b.length = 16 → S4.decode32 a = S4.decode32 b → a = b) ∧
+    (∀ a b : List U8, a.length = 32 → b.length = 32 → S4.decode64 a = S4.decode64 b → a = b) ∧
+    (∀ a b : List U8, a.length = 64 → b.length = 64 → S8.decode a = S8.decode b → a = b) := by
+  refine ⟨?_, ?_, ?_, ?_, ?_⟩
+  · intro a b ha hb h
+    simp only [S2.decode32, S2.mk.injEq] at h
+    exact eq_of_words32 a b 2 (by omega) (by omega) (by
+      intro k hk; match k, hk with
+      | 0, _ => exact h.1
+      | 1, _ => exact h.2)
+  · intro a b ha hb h
+    simp only [S2.decode64, S2.mk.injEq] at h
+    exact eq_of_words64 a b 2 (by omega) (by omega) (by
+      intro k hk; match k, hk with
+      | 0, _ => exact h.1
+      | 1, _ => exact h.2)
+  · intro a b ha hb h
+    simp only [S4.decode32, S4.mk.injEq] at h
+    exact eq_of_words32 a b 4 (by omega) (by omega) (by
+      intro k hk; match k, hk with
+      | 0, _ => exact h.1
+      | 1, _ => exact h.2.1
+      | 2, _ => exact h.2.2.1
+      | 3, _ => exact h.2.2.2)
+  · intro a b ha hb h
+    simp only [S4.decode64, S4.mk.injEq] at h
+    exact eq_of_words64 a b 4 (by omega) (by omega) (by
+      intro k hk; match k, hk with
+      | 0, _ => exact h.1
+      | 1, _ => exact h.2.1
+      | 2, _ => exact h.2.2.1
+      | 3, _ => exact h.2.2.2)
+  · intro a b ha hb h
+    simp only [S8.decode, S8.mk.injEq] at h
+    exact eq_of_words64 a b 8 (by omega) (by omega) (by
+      intro k hk; match k, hk with
+      | 0, _ => exact h.1
+      | 1, _ => exact h.2.1
+      | 2, _ => exact h.2.2.1
+      | 3, _ => exact h.2.2.2.1
+      | 4, _ => exact h.2.2.2.2.1
+      | 5, _ => exact h.2.2.2.2.2.1
+      | 6, _ => exact h.2.2.2.2.2.2.1
+      | 7, _ => exact h.2.2.2.2.2.2.2)
+
+/-! ### XorShiftRng -/
+theorem BAD_SEED_ne_zero : XorShift.BAD_SEED ≠ S4.zero := by decide
+
+/-- `XorShiftRng::from_seed` never returns the zero state; the zero seed maps to four words
+    0x0BAD5EED, every other seed is used verbatim. -/
+theorem XorShift_fromSeed (seed : List U8) :
+    XorShift.fromSeed seed ≠ S4.zero ∧
+    (S4.decode32 seed = S4.zero → XorShift.fromSeed seed = ⟨0xBAD5EED#32, 0xBAD5EED#32, 0xBAD5EED#32, 0xBAD5EED#32⟩) ∧
+    (S4.decode32 seed ≠ S4.zero → XorShift.fromSeed seed = S4.decode32 seed) := by
+  unfold XorShift.fromSeed
+  by_cases h : S4.decode32 seed = S4.zero
+  · simp [h, BAD_SEED_ne_zero]; rfl
+  · simp [h]
+
+/-- `XorShiftRng::from_rng`: if the k-th block delivered is the first one that is not all zero, the
+    result is that block (decoded), for every k; an all-zero block is never used. -/
+theorem XorShift_fromRng_ne_zero {ρ : Type} (fill : TryFill ρ) (fuel : Nat) (src : ρ) (st : XorShift.State) (src' : ρ)
+    (hfill : ∀ s n b s', fill s n = (.ok b, s') → b.length = n)
+    (h : XorShift.fromRngFuel fill fuel src = (.ok st, src')) : st ≠ S4.zero := by
+  induction fuel generalizing src with
+  | zero => simp [XorShift.fromRngFuel] at h
+  | succ fuel ih =>
+    unfold XorShift.fromRngFuel at h
+    rcases hf : fill src 16 with ⟨r, s1⟩
+    rw [hf] at h
+    cases r with
+    | error e => simp at h
+    | ok b =>
+      simp only at h
+      by_cases hz : isAllZero b = true
+      · simp [hz] at h; exact ih _ h
+      · have hz' : isAllZero b = false := by simpa using hz
+        simp [hz'] at h
+        rw [← h.1]
+        exact S4_decode32_ne_zero b (hfill _ _ _ _ hf) hz'
+
+/-- `try_from_rng` is the same function as `from_rng` (the source text is a copy). -/
+theorem XorShift_tryFromRng_eq {ρ : Type} (fill : TryFill ρ) (fuel : Nat) (src : ρ) :
+    XorShift.tryFromRngFuel fill fuel src = XorShift.fromRngFuel fill fuel src := by
+  induction fuel generalizing src with
+  | zero => rfl
+  | succ fuel ih =>
+    unfold XorShift.tryFromRngFuel XorShift.fromRngFuel
+    rcases fill src 16 with ⟨r, s1⟩
+    cases r with
+    | error e => rfl
+    | ok b => simp only; split <;> simp [ih]
+
+/-- non-vacuity: the zero seed of Xoshiro256PlusPlus really takes the remapping branch and ends in
+    the state `seed_from_u64(0)`, whose first word is the first SplitMix64 output from 0. -/
+example : (Xoshiro256PlusPlus.gen.fromSeed? (List.replicate 32 0)).map (·.s0) = some 0xe220a8397b1dcdaf#64 := by
+  decide +kernel
+
 end Rngs.C08
